@@ -43,6 +43,13 @@ ASSUMPTIONS = [
     "an injected exception is raised by the callback itself (user code); the library must only clean up its own bookkeeping",
     "clean values are compared exactly (same computation path), tolerance 1e-12 x magnitude",
 ]
+COVERAGE_EXTRA = {
+    "exhaustive": False,
+    "exhaustive_per_case": True,
+    "explanation": "the problem / target / schedule space is sampled by Hypothesis; for every sampled case ALL callback "
+    "invocation indices of the clean run x 4 exception types are injected (info.sum_injections = total injections, "
+    "info.max_T = largest number of injection points of one case)",
+}
 REQUIRED_CLASSES = {"all": ["kinds=eval+solve+matmul", "kinds=eval+matmul", "selection=mask", "mode=nonhermitian"]}
 
 EXC = ["custom", "runtime", "notimplemented", "keyboard"]
